@@ -90,7 +90,42 @@ def scenarios(tier):
         for blk, k in (("X", 0), ("X", 2), ("Y", 0), ("K", 1)):
             out.append((spec, [{"op": "ins", "b": blk, "k": k, "p": [["p", 0]], "cons": cons}]))
         out.append((spec, [{"op": "ins", "b": "X", "k": 1, "p": [["p", 0]], "cons": cons}, {"op": "ins", "b": "Z", "k": 0, "p": [["p", 0]], "cons": CONS[(ci + 1) % len(CONS)]}]))
+    # a block that is already zero-sized (what an earlier rewrite leaves of an emptied function entry) next to the edit
+    from . import c02
+
+    for kinds in ("czcc", "czdc"):
+        spec = c02.make_spec(kinds, c02.FUNCS[0], ())
+        pc = [["p", 0]] if kinds[2] == "c" else {"bytes": [0]}
+        out.append((spec, [{"op": "del", "b": "C", "k": 0, "n": 1}]))
+        out.append((spec, [{"op": "ins", "b": "C", "k": 1, "p": pc}]))
+        out.append((spec, [{"op": "ins", "b": "C", "k": 0, "p": pc}]))
+        out.append((spec, [{"op": "ins", "b": "C", "k": 1, "p": pc}, {"op": "del", "b": "C", "k": 0, "n": 1}]))
+        out.append((spec, [{"op": "del", "b": "A", "k": 1, "n": 1}, {"op": "del", "b": "C", "k": 0, "n": 1}]))
     return [(s, scen.retag(m)) for s, m in out]
+
+
+def _tag(spec, diffs, mods=None):
+    """role for signatures (from the request): does the module contain a block that is zero-sized on input, and does an
+    insertion of this request land exactly at its address (directly, or once the deletions of the request are applied)?"""
+    blocks = [b for s in spec["sections"] for b in s["blocks"]]
+    zi = next((j for j, b in enumerate(blocks) if not b["i"]), None)
+    role = "plain"
+    if zi is not None:
+        role = "zero-sized-block"
+        for m in mods or ():
+            if m["op"] not in ("ins", "rep"):
+                continue
+            j = next(i for i, b in enumerate(blocks) if b["n"] == m["b"])
+            n = len(blocks[j]["i"])
+            gone = set()
+            for d in mods:
+                if d["op"] in ("del", "rep") and d["b"] == m["b"]:
+                    gone |= set(range(d["k"], d["k"] + d.get("n", 0)))
+            if j == zi or (j == zi + 1 and all(i in gone for i in range(m["k"]))) or (j == zi - 1 and all(i in gone for i in range(m["k"], n))):
+                role = "insertion-at-zero-sized-block"
+    for d in diffs:
+        d["r_shape"] = role
+    return diffs
 
 
 def _strip(a):
@@ -328,7 +363,7 @@ def run_task(task):
             if len(set(vals.values())) != 1:
                 bad = sorted(k for k, v in vals.items() if v != vals[ref_key])
                 res.bad({"kind": "seeds", "tier": tier, "index": lo + i, "runs": [list(k) for k in sorted(runs)]},
-                        [C.D("result-depends-on-hash-seed-or-uuids", differing=[list(b) for b in bad])])
+                        _tag(scs[lo + i][0], [C.D("result-depends-on-hash-seed-or-uuids", differing=[list(b) for b in bad])], scs[lo + i][1]))
         res.sample({"kind": "seeds", "scenarios": [lo, hi], "runs": [list(k) for k in sorted(runs)]}, cap=1)
         return res
     alts = BOUNDS[tier]["alternatives"]
@@ -350,13 +385,13 @@ def run_task(task):
                 res.case(("perm", idx, perm), nontrivial=True, outcome="same" if digest(out) == digest(base) else "differs")
                 if digest(out) != digest(base):
                     d = canon.diff(base, out) if isinstance(base, dict) and isinstance(out, dict) else [str(base)[:80], str(out)[:80]]
-                    res.bad({"kind": "perm", "tier": tier, "index": idx, "perm": list(perm)}, [C.D("result-depends-on-registration-order", r_where=_where(d), detail=d[:3])])
+                    res.bad({"kind": "perm", "tier": tier, "index": idx, "perm": list(perm)}, _tag(spec, [C.D("result-depends-on-registration-order", r_where=_where(d), detail=d[:3])], mods))
         # (2) schedules
         diffs, n = check_schedules(spec, mods, alts, res)
         res.case(("sched", idx), nontrivial=n > 0, outcome="ok" if not diffs else "differs")
         res.extra["schedule_points"] += n
         if diffs:
-            res.bad({"kind": "sched", "tier": tier, "index": idx}, diffs)
+            res.bad({"kind": "sched", "tier": tier, "index": idx}, _tag(spec, diffs, mods))
         res.sample({"kind": "sched", "spec_blocks": [b["n"] for s in spec["sections"] for b in s["blocks"]], "mods": mods, "interception_points": n}, cap=1)
     return res
 
@@ -366,19 +401,19 @@ def replay(case):
     res = TaskResult()
     if case["kind"] == "sched":
         spec, mods = scs[case["index"]]
-        return check_schedules(spec, mods, BOUNDS[case["tier"]]["alternatives"], res)[0]
+        return _tag(spec, check_schedules(spec, mods, BOUNDS[case["tier"]]["alternatives"], res)[0], mods)
     if case["kind"] == "perm":
         spec, mods = scs[case["index"]]
         base = run_dump(spec, mods)
         out = run_dump(spec, [mods[i] for i in case["perm"]])
         if digest(out) != digest(base):
             d = canon.diff(base, out) if isinstance(base, dict) and isinstance(out, dict) else []
-            return [C.D("result-depends-on-registration-order", r_where=_where(d), detail=d[:3])]
+            return _tag(spec, [C.D("result-depends-on-registration-order", r_where=_where(d), detail=d[:3])], mods)
         return []
     if case["kind"] == "seeds":
         i = case["index"]
         runs = {tuple(k): seed_run(case["tier"], i, i + 1, k[0], k[1], {"asc": 0, "desc": 7, "random": 131}[k[1]]) for k in case["runs"]}
         if len({v[0] for v in runs.values()}) != 1:
-            return [C.D("result-depends-on-hash-seed-or-uuids")]
+            return _tag(scs[i][0], [C.D("result-depends-on-hash-seed-or-uuids")], scs[i][1])
         return []
     return []
